@@ -159,7 +159,7 @@ fn concurrent_frames(w: &mut dyn Write) -> u64 {
         fn write(&mut self, b: &[u8]) -> io::Result<usize> {
             if b == b"held" {
                 let _ = self.inside.send(());
-                let _ = self.release.recv_timeout(Duration::from_secs(8));
+                let _ = self.release.recv_timeout(Duration::from_secs(60));
             }
             self.buf.extend_from_slice(b);
             Ok(b.len())
@@ -176,7 +176,7 @@ fn concurrent_frames(w: &mut dyn Write) -> u64 {
         match r { Ok(n) => json!(["ok", n]), Err(e) => json!([kind_of(&e), 0]) }
     });
     let mut events = 0;
-    if inside_rx.recv_timeout(Duration::from_secs(8)).is_ok() {
+    if inside_rx.recv_timeout(Duration::from_secs(60)).is_ok() {
         let (done_tx, done_rx) = channel();
         let b = std::thread::spawn(move || {
             let mut v: Vec<u8> = Vec::new();
@@ -184,7 +184,7 @@ fn concurrent_frames(w: &mut dyn Write) -> u64 {
             let ret = match &r { Ok(n) => json!(["ok", n]), Err(e) => json!([kind_of(e), 0]) };
             let _ = done_tx.send((v, ret));
         });
-        let ev = match done_rx.recv_timeout(Duration::from_secs(4)) {
+        let ev = match done_rx.recv_timeout(Duration::from_secs(40)) {
             Ok((v, ret)) => json!({"fg":2,"bg":4,"data":[102, 114, 101, 101],"inner":[[v, "ok", v.len()]],"ret":ret,"impl":"Vec (another thread is inside a frame)","whole":true}),
             Err(_) => json!({"fg":2,"bg":4,"data":[102, 114, 101, 101],"inner":[],"ret":["hang", 0],"impl":"Vec (another thread is inside a frame)","whole":true}),
         };
